@@ -244,6 +244,29 @@ pub fn run(prop: &str, thorough: bool, seed: u64, rep: &mut Report) {
         }
         for doc in [&b"\xEF\xBB\xBF1"[..], b"1\xC0\xA0", b"\"\xED\xA0\x80\"", b"\"\xF4\x90\x80\x80\"", b"[\"\xE2\x82\xAC\", 1]", b"{\"\xC3\xA9\":\"\xF0\x9F\x98\x80\"}"] { check_bytes(prop, doc, rep); }
     }
+    if prop == "C02" {
+        // objects with duplicated keys: every assignment of up to N members to the keys a/b/c,
+        // values numbered in source order; lookups must be the linear scan (check_lookups)
+        rep.checks.push("C02: key lookups on objects with duplicate keys == linear scan in source order".into());
+        let keys = ["a", "b", "c"];
+        let maxm = if thorough { 8 } else { 6 };
+        for m in 0..=maxm {
+            let mut idx = vec![0usize; m];
+            loop {
+                let mut doc = String::from("{");
+                for (j, &k) in idx.iter().enumerate() { if j > 0 { doc.push(','); } doc.push_str(&format!("\"{}\":{}", keys[k], j)); }
+                doc.push('}');
+                check_text(prop, &doc, rep);
+                let nested = format!("[{},{{\"x\":{}}}]", doc, doc);
+                if m <= 4 { check_text(prop, &nested, rep); }
+                let mut k = m;
+                let mut done = true;
+                while k > 0 { k -= 1; if idx[k] + 1 < keys.len() { idx[k] += 1; for j in k + 1..m { idx[j] = 0; } done = false; break; } }
+                if done { break; }
+            }
+        }
+        rep.bounds.push(("duplicate_key_members".into(), maxm.to_string()));
+    }
     if prop == "C03" {
         rep.checks.push("C03: 200000-deep nesting in a 256 KiB stack; no panic on any enumerated input".into());
         deep_nesting(rep, if thorough { 1_000_000 } else { 200_000 });
